@@ -23,7 +23,8 @@ package c04
 //	["qb", tok, who]        FunToken.balance(who, erc20(tok))         (query)
 //	["fr", [ops], rev]      self-call executing ops, ending with REVERT iff rev
 //
-// Amounts 1..20 always succeed in this world (every holder starts with thousands), amounts >= 10^6 always fail.
+// Amounts 1..20 always succeed in this world (every holder starts with thousands); the generated failing amount is
+// 10^12, above every funded balance (C and the recipients hold < 10^6 of everything, W holds 2*10^10 unibi).
 // tools/props/c04.py translates a tx into the script ops of the Coq model (sendToEvm u = pc[bs 1 5 x; is 4 k x;
 // is 4 9 x] …); balances of the non-unibi denoms are shown as balances of pseudo accounts (20+id for d, 30+id for
 // e, 29 / 39 = 10^6 − bank supply of the denom), ERC20 ledgers as storage of 4 (u), 8 (d), 14 (ORC) with keys
@@ -521,7 +522,7 @@ func (g *txGen) tok() string { return []string{"u", "d", "e"}[g.rng.Pick(4, 3, 3
 
 func (g *txGen) amount() int64 {
 	if g.rng.Chance(1, 12) {
-		return 1_000_000_000 // never available: the call fails
+		return 1_000_000_000_000 // above every funded balance (W holds 2*10^10 unibi): the call fails
 	}
 	return int64(g.rng.Range(1, 20))
 }
